@@ -213,6 +213,14 @@ func c11generic(doc *jmut.Node, pick func(n int) int, limit int, under string) [
 				cands = append(cands, cand{p, v})
 			}
 		}
+		// near misses of the value itself: extended keys, other case, appended characters
+		if !c11freeText[key] && n.S != "" && len(n.S) < 60 {
+			for _, v := range []string{n.S + "+x", n.S + "+x+y", n.S + "+sepa+instant", n.S + "-x", n.S + "1", n.S + ".", strings.ToUpper(n.S), strings.ToLower(n.S), n.S[:len(n.S)-1]} {
+				if v != n.S && v != "" {
+					cands = append(cands, cand{p, v})
+				}
+			}
+		}
 	})
 	if limit > 0 && len(cands) > limit {
 		for i := 0; i < limit; i++ {
